@@ -9,6 +9,10 @@ add("C01", "model_checking",
     "Every case of finite, index-addressable families is executed on the real parser inside an isolated worker process on a 2 MiB thread under catch_unwind, with abnormal exits (signals, aborts, hangs beyond a 60 s horizon) attributed to the exact index: grammar product with adversarial templates x body lengths x fills x delivery x length/count deviations (V9 and IPFIX), every single-byte deviation (all 256 values) and every truncation of every seed under 3-5 cache states, structural deviations, all buffers of <=2 bytes, and the scale ladder of every structural repetition up to the 65 535-byte datagram limit in release and dev profiles; every returned value is re-exported, converted and serialised.",
     "coverage is the stated families, not all byte strings; non-termination is judged against an explicit horizon; live-heap budget overruns are counted as C15's subject",
     "bounded-exhaustive execution sweep with subprocess fault attribution (stateless exploration of real code)", "DESIGN.md §5 C01", "E-SWEEP")
+add("C02", "model_checking",
+    "Every case of the C01 families (grammar product A, single-byte deviations/truncations/structural deviations B, tiny buffers D) and every chain of <=3 (thorough 4) packets over the 17-packet menu under 4 prior cache states is run under every allowed-version set of the stated menu (all 16 subsets of {5,7,9,10} x extras); the decomposition law is decided from input bytes and returned list alone by a cursor walk using the wire length implied by each packet's own header.",
+    "trusted: c02::decomposition_issues; cases on which the library panics are left to C01",
+    "bounded-exhaustive enumeration of (history, buffer, configuration) with a relational oracle", "DESIGN.md §5 C02", "E-ENUM")
 add("C03", "exploration",
     "Bounded-exhaustive enumeration of V5/V7 input shapes on the real parse_bytes against an independent offset-table decoder: every byte offset x all 256 values of two byte-distinct packets, all field pairs x boundary values, every count 0..=65535 over short and maximal buffers, every materialisable record count, all 256 protocol numbers, every proper prefix. Stateless property over inputs, so exhaustive enumeration of the shape space is the deciding step.",
     "trusted: reference decoder refmodel::ref_fixed and the IANA keyword table mc/src/iana.rs; byte values beyond the walking-byte/boundary alphabets are not covered",
